@@ -5,7 +5,7 @@
    is used up, Some RNil for nil, Some RCtx for the context's error, Some (RConn reason err) for
    *ConnectionError{Reason, Err}.  The error of a stream comes from the byte-level specification
    [Whatwg.interp gosse_conn]; [stream_error], [attempt_error] are written from the property text. *)
-From GoSse Require Import Base Whatwg Backoff Connect ConnectProofs ConnectStep ConnectTop ConnectFacts ConnectClass ConnectCtx.
+From GoSse Require Import Base Whatwg Backoff Connect ConnectProofs ConnectStep ConnectTop ConnectFacts ConnectClass ConnectCtx RunRead.
 From GoSse.Gen Require Import Params.
 
 (* Connect never returns nil - whatever the streams contain, however they end, for every script
@@ -36,6 +36,15 @@ Proof. exact stream_error_clean. Qed.
 Theorem C11_mid_line :
   forall s, ends_mid_line s = true <-> exists pre b, s = pre ++ [b] /\ b <> LF /\ b <> CR.
 Proof. exact ends_mid_line_spec. Qed.
+
+(* The same through sse.Read (the specification in Read mode): events, then the reader's own error for
+   a read error, ErrUnexpectedEOF only for a clean end in mid-line, and no error at all for a clean
+   end after a terminated line. *)
+Theorem C11_read_error_identity :
+  forall lid body en,
+  exists ys, no_err ys /\
+    interp gosse_read lid body en = ys ++ match read_error body en with Some e => [YErr e] | None => [] end.
+Proof. exact interp_read_structure. Qed.
 
 (* Classification.  Whenever Connect returns r after n requests (and the context was not already
    done before the first one):
